@@ -9,6 +9,8 @@ type framesFilter struct {
 	port  *uint8
 	call  callsign // to OR from
 	to    callsign
+	// Frames exchanged between these two stations (in either direction)
+	between *[2]callsign
 }
 
 type framesReq struct {
@@ -35,6 +37,8 @@ func (f framesFilter) Want(frame frame) bool {
 	case f.call != (callsign{}) && !(f.call == frame.From || f.call == frame.To):
 		return false
 	case f.to != (callsign{}) && !(f.to == frame.To):
+		return false
+	case f.between != nil && !(f.between[0] == frame.From && f.between[1] == frame.To) && !(f.between[1] == frame.From && f.between[0] == frame.To):
 		return false
 	}
 	if len(f.kinds) == 0 {
